@@ -44,6 +44,9 @@ def c06_scenarios(topo, origin, blocked_origin, fakes=None):
             out.append(("refused", proto, up, lambda p=proto, u=up: topo.open(p, u, TC), "fail", False))
         for up in ("uphttp", "upsocks5", "upsocks4", "uphttp6", "upquic"):
             out.append(("upstream-says-no", proto, up, lambda p=proto, u=up: topo.open(p, u, TB), "fail", True))
+        # through a load balancer: its member's failure is the request's failure
+        out.append(("ok-via-lb", proto, "lb", lambda p=proto: topo.open(p, "lb", T), "ok", False))
+        out.append(("refused-via-lb", proto, "lb", lambda p=proto: topo.open(p, "lb", TC), "fail", False))
         out.append(("deny", proto, "deny", lambda p=proto: topo.open(p, "deny", T), "fail", True))
         out.append(("norule", proto, "none", lambda p=proto: topo.open(p, "none", T), "fail", True))
         out.append(("domain-unresolvable", proto, "direct", lambda p=proto: topo.open(p, "direct", ("domain", "no-such-host.invalid", 80)) if p != "socks4"
